@@ -13,7 +13,50 @@ def srv(focus, quick=(28, 150), thorough=(320, 300)):
 SERVER_TIE_COMMON = ["window", "sentinel", "handleReport_kinds", "storage", "storage_index", "integrate_kinds",
                      "verify_keys_server", "layout_report", "layout_report_signing", "layout_parse_report", "prefix_report", "report_size"]
 
+SRV_TB = [KERNEL, TRANSLATOR, HARNESS, CRYPTO]
+
 PROPS = {
+    "C01": {
+        "modules": ["Gca.Props.C01"],
+        "tie": SERVER_TIE_COMMON,
+        "jobs": [srv("C01")],
+        "rule": "random histories dominated by datagrams: valid reports at the boundaries now-433/-432/+432/+433, offset-1/offset/offset+4031/offset+4032/+4033, power 0/1/2, limit/limit+1, replays, single and multi bit flips, truncations, extensions beyond 80 bytes, field swaps, re-signing under every other key of the scenario, random bytes, unknown ids; clocks around offset+3200/3600/4000/4032 and beyond; every op line carries the FNV-64 hash of the implementation's full snapshot, compared with the model's; non-trivial = not dropped/refused",
+        "trusted_base": SRV_TB,
+        "assumptions": ["strength of the signature scheme: the model rejects whenever glow.Verify says false (oracle), it does not prove that a flipped bit makes it say false"],
+    },
+    "C03": {
+        "modules": ["Gca.Props.C03"],
+        "tie": ["startup_catchup", "rotation_trigger", "migrateLoop_kinds", "stats_misaligned", "stats_archived", "stats_archive_index", "stats_kinds",
+                "buildStats_refusal", "buildStats_base", "buildStats_kinds", "migrate_order", "migrate_ints", "prefix_stats"],
+        "jobs": [srv("C03")],
+        "rule": "histories interleaving reports, bans, clock jumps (none/one/multi-week), real background-loop iterations, restarts with catch-up, impact rounds (rates read back), statistics queries for archived/first/second/future/misaligned/over-32-bit offsets with and without insert_false_negatives; served signature verified with the real key; non-trivial = not dropped/refused",
+        "trusted_base": SRV_TB + ["encoding/json float round-trip of the statistics response"],
+        "assumptions": ["the signature of the served record is checked by execution (glow.Verify over the Go signing bytes, whose layout is C15)"],
+    },
+    "C06": {
+        "modules": ["Gca.Props.C06"],
+        "tie": ["verify_keys_server", "layout_auth", "layout_auth_read", "prefix_auth", "save_equipment_order"],
+        "jobs": [srv("C06")],
+        "rule": "sequences of authorizations (new, exact duplicate, conflict in each single field incl. public key and sign of zero, reuse of another device's key, bad/foreign signatures, flipped signed bit, banned ids) through the JSON endpoint and the direct hook, interleaved with reports, syncs and restarts; non-trivial = not refused",
+        "trusted_base": SRV_TB + ["encoding/json transport of float64 (finite values)"],
+        "assumptions": ["authorizations never carry NaN coordinates (JSON cannot)"],
+    },
+    "C07": {
+        "modules": ["Gca.Props.C07"],
+        "tie": ["verify_keys_server", "prefix_registration", "layout_registration", "save_gca_key_order"],
+        "jobs": [srv("C07")],
+        "rule": "sequences of registrations (valid, wrong signer, altered key, replays, after restart) interleaved with authorizations/server authorizations/migration orders signed by the temp key, losers and the winner; non-trivial = not refused",
+        "trusted_base": SRV_TB + ["register is one critical section (lock skeleton of registerGCA)"],
+        "assumptions": ["the all-zero key verifies nothing (checked by execution in the codec run)"],
+    },
+    "C12": {
+        "modules": ["Gca.Props.C12"],
+        "tie": ["storage", "storage_index", "impact_guard", "impact_index", "stats_archive_index", "window", "integrate_kinds"],
+        "jobs": [srv("C12")],
+        "rule": "mixed histories with every request kind at clocks from offset to beyond two windows; every scenario runs in its own process so that a panic anywhere (handler goroutines included) is seen as a crash; witnesses F1, F4, F10, F11 replay the repaired crashes/wedges; non-trivial = not dropped/refused",
+        "trusted_base": SRV_TB,
+        "assumptions": ["idle connections, peer timeouts and shutdown time are runtime behaviour, exercised by the witnesses only (partial)"],
+    },
     "C02": {
         "modules": ["Gca.Props.C02"],
         "tie": ["slot_banned", "slot_duplicate", "slot_empty", "capacity_limit", "capacity", "integrate_kinds", "storage_index", "capacity_buffer"],
